@@ -206,6 +206,21 @@ def run(prog, rep):
               "the fuzzy finder no longer builds its parameter pairs from QueryCreator.possible_q_dict_keys in both modes (%s)"
               % [m0.name for m0 in users], ff.module.path, witness="a key added to the query builder is ignored by the finder")
 
+    # PAIR-3: every (attribute, value) pair the caller gave becomes a parameter pair
+    rep.rule("PAIR-3", "the pair generators of FuzzyFinder (and their private helpers) iterate <self>.q_params[<key>] as it is: they do not pass it "
+                       "through dict() / set() / frozenset(), which keep one entry per attribute - `sec(type:a, type:b)` would search for b only")
+    n_pairs = 0
+    for m0 in users:
+        for h in private_closure(m0):
+            for c in calls_in(h.node):
+                if isinstance(c.func, ast.Name) and c.func.id in ("dict", "set", "frozenset") and c.args \
+                        and any(isinstance(y, ast.Attribute) and y.attr == "q_params" for y in ast.walk(c.args[0])):
+                    rep.fail("PAIR-3", "%s|%s(q_params)" % (h.short, c.func.id), "%s wraps the caller's parameter list in %s(): repeated attributes "
+                             "collapse to one entry" % (h.short, c.func.id), where(h, c),
+                             witness="find(mode='match', q_str='sec(type:stimulus, type:recording)') reports the matches of 'recording' only")
+            n_pairs += 1
+    rep.ok("PAIR-3", "the parameter lists are iterated as given", "%d generator functions" % n_pairs, "")
+
     # --------------------------------------------------------------- STATE-1
     rep.rule("STATE-1", "no class of rdf.query_creator / rdf.fuzzy_finder keeps a mutable container at class level other than read-only "
                         "tables; parsers initialise self.q_dict in __init__; QueryParserFuzzy resets it per parse; FuzzyFinder resets "
